@@ -2,7 +2,7 @@ import SafeC.Proofs.SortBits
 /-!
 # qsort_s model: what happens when two consecutive tree orders are exactly 64 apart
 
-`pntz` answers 0 for `p = {1, odd}` (`pntz_at64`).  In `trinkle` the shift by 0 leaves `p = {1,1}`, `pshift = 1` unchanged, so
+Code WITHOUT the `pntz` repair (`Fixes.pntzGap = false`): `pntz` answers 0 for `p = {1, odd}` (`pntz_at64`).  In `trinkle` the shift by 0 leaves `p = {1,1}`, `pshift = 1` unchanged, so
 the loop keeps stepping to `head - lp[1] = head - 1` and never sees `p == {1,0}`; it stops only when the comparator lets it.
 With a comparator that keeps answering "greater" (the new element is smaller than what it meets) `ar[]` is overrun after
 its 113 entries: `Fault.arIdx`, a stack buffer overflow in the C.  The state `p = {1,1}`, `pshift = 1` is the forest of
@@ -25,12 +25,12 @@ theorem trinkleIter_const (e : Env α) (hcmp : ∀ k i j x y, e.cmp k i j x y = 
   simp only [e0, e1, e2, bind, Except.bind, pure, Except.pure]
   simp
 
-theorem trinkleLoop_gap64 (e : Env α) (hfx : e.fx.ctz64 = true) (hcmp : ∀ k i j x y, e.cmp k i j x y = 1)
+theorem trinkleLoop_gap64 (e : Env α) (hfx : e.fx.ctz64 = true) (hgap : e.fx.pntzGap = false) (hcmp : ∀ k i j x y, e.cmp k i j x y = 1)
     (hlp1 : e.lp[1]? = some 1) (ar0 : Nat) : ∀ (room : Nat) (s : St α) (head : Nat) (trusty : Bool) (acc : List Nat),
     ar0 < s.a.size → head < s.a.size → room + 1 ≤ head →
     trinkleLoop e room s ar0 head ⟨1, 1⟩ 1 trusty acc = .error .arIdx := by
   have hne : (⟨1, 1⟩ : PV) ≠ PV.one := by decide
-  have hp : pntz e.fx ⟨1, 1⟩ = 0 := pntz_at64 e.fx hfx ⟨1, 1⟩ (by decide) (by decide) (by
+  have hp : pntz e.fx ⟨1, 1⟩ = 0 := pntz_at64 e.fx hfx hgap ⟨1, 1⟩ (by decide) (by decide) (by
     intro j h1 h2
     have : ∀ j : Fin 64, 0 < j.val → (⟨1, 1⟩ : PV).bit j.val = false := by decide
     exact this ⟨j, h2⟩ h1)
@@ -50,11 +50,11 @@ theorem trinkleLoop_gap64 (e : Env α) (hfx : e.fx.ctz64 = true) (hcmp : ∀ k i
     exact ih s' (head - 1) false ((head - 1) :: acc) (by rw [ha']; exact h0) (by rw [ha']; omega) (by omega)
 
 /-- from the state of a heap of orders 1 and 65, a comparator answering "greater" throughout: `trinkle` overruns `ar[]` -/
-theorem trinkle_gap64_overrun (e : Env α) (hfx : e.fx.ctz64 = true) (hcmp : ∀ k i j x y, e.cmp k i j x y = 1)
+theorem trinkle_gap64_overrun (e : Env α) (hfx : e.fx.ctz64 = true) (hgap : e.fx.pntzGap = false) (hcmp : ∀ k i j x y, e.cmp k i j x y = 1)
     (hlp1 : e.lp[1]? = some 1) (s : St α) (head : Nat) (hh : head < s.a.size) (h113 : 113 ≤ head) :
     trinkle e s head ⟨1, 1⟩ 1 false = .error .arIdx := by
   unfold trinkle
-  rw [trinkleLoop_gap64 e hfx hcmp hlp1 head 112 s head false [head] hh hh (by omega)]
+  rw [trinkleLoop_gap64 e hfx hgap hcmp hlp1 head 112 s head false [head] hh hh (by omega)]
   rfl
 
 end SafeC.Sort
